@@ -989,7 +989,8 @@ class MBXML:
         body = b""
         if doc.is_constant_table_inherited:
             body += cls.write_uintvar(1)
-        elif not doc.is_constant_table_default:
+        elif not doc.is_constant_table_default or not doc.id.value[1]:
+            # a document id with constant data table always carries CDT_LEN (the reader expects it), zero for no own table
             body += cls.write_uintvar(len(doc.constants_table)) + doc.constants_table
 
         for part in doc.parts:
